@@ -269,6 +269,9 @@ class C05(Prop):
                 # every level of the path: the log of versions the recursion model reverts, C05.DeepHolds on the rows after
                 lines.append('q05n %d %s %d %s %s' % (TID[cname], pk[0], tx, REG[case['shape']],
                                                      '.'.join(str(RELNO[n]) for n in res['dotted'].split('.'))))
+                # ... and the WHOLE state: rows and links predicted by the recursion model revertF from the state before
+                lines.append('q05f %d %s %d %s %s' % (TID[cname], pk[0], tx, REG[case['shape']],
+                                                     '.'.join(str(RELNO[n]) for n in res['dotted'].split('.'))))
             lines.append('q05 %d %s %d %s' % (TID[cname], pk[0], tx, rels))
             lines.append('reset')
         return lines
@@ -306,14 +309,24 @@ class C05(Prop):
                                        'detail': {'target': res['target'], 'rels': res['rels'], 'error': e, 'entity_live': live_now}})
                 continue
             deep = None
+            full = None
             if res.get('dotted'):
                 deep = answers[k].split(' ')
+                k += 1
+                full = answers[k].split(' | ')
                 k += 1
             ans = answers[k]
             k += 1
             target, relbits, frame, modelbits = ans.split(' ')
             det = {'target': res['target'], 'rels': res['rels'], 'before': res['before']['live'], 'after': res['after']['live'],
                    'links_after': res['after']['links']}
+            if full is not None and op != 2 and full[0] != '1 1':
+                # correspondence: the recursion model revertF (rows, links at every level) vs the implementation
+                out.mismatches.append({'stream': 'revertF (whole recursion) vs implementation for %s %s (rows equal, links equal) = %s'
+                                                 % (res['target'], res['dotted'], full[0]),
+                                       'impl': {'live_after': res['after']['live'], 'links_after': visible_links(res['after'])},
+                                       'model': {'live_after': full[1], 'links_after': full[2],
+                                                 'live_before': res['before']['live'], 'links_before': visible_links(res['before'])}})
             if deep is not None and op != 2:
                 # c05_every_level: every version the recursion reverts (second level included) has its entity at its values
                 if int(deep[2]) >= 1:
